@@ -164,7 +164,7 @@ def plain(edges, rng, shuffle=True):
 
 
 def make_case(kind, k, n, edges, rng, fam, tags, origin):
-    """tags: which variants besides the base ('labels', 'history', 'large', 'isolated')"""
+    """tags: which variants besides the base ('labels', 'history', 'reversed', 'large', 'isolated')"""
     edges = list(dict.fromkeys(edges))
     base_labels = FAMILIES[fam][:MAXN]
     weighted = rng.random() < 0.15
@@ -183,6 +183,9 @@ def make_case(kind, k, n, edges, rng, fam, tags, origin):
         elif t == "history":     # the same final hypergraph through another insertion history
             vs.append({"tag": t, "labels": base_labels, "weighted": weighted, "calls": history(kind, edges, rng, n, weighted),
                        "seed": rng.randrange(1 << 30)})
+        elif t == "reversed":    # the same hyperedges inserted one by one in the opposite order
+            vs.append({"tag": t, "labels": base_labels, "weighted": weighted,
+                       "calls": [["add", e, rng.randint(1, 3)] for e in reversed(edges)], "seed": rng.randrange(1 << 30)})
         elif t == "large":       # extra hyperedges with more than k nodes (and possibly new nodes)
             extra = []
             top = min(MAXN, n + 2)
@@ -239,6 +242,156 @@ def hg_inputs(tier, rng):
         f = next(fam)
         for k in (3, 4):
             out.append(make_case("hg", k, n, edges, rng, f, tags, "random"))
+    return out
+
+
+def nested_family(rng, n):
+    """a few 'top' hyperedges of size 4 (and 3) with most of their sub-hyperedges, little else: the node sets that only the
+    pass seeded at the (k-1)-hyperedges can reach, and that it has to reach through hyperedges nested in larger ones"""
+    nodes = range(1, n + 1)
+    c4 = list(itertools.combinations(nodes, 4))
+    c3 = list(itertools.combinations(nodes, 3))
+    c2 = list(itertools.combinations(nodes, 2))
+    tops = rng.sample(c4, rng.randint(2, min(len(c4), 4)))
+    in3 = {t for F in tops for t in itertools.combinations(F, 3)}
+    tops3 = rng.sample(c3, rng.randint(0, 2))
+    in2 = {t for F in tops3 for t in itertools.combinations(F, 2)}
+    p_in, p_out = rng.choice([0.4, 0.6, 0.8, 1.0]), rng.choice([0.0, 0.1, 0.2])
+    p2_in, p2 = rng.choice([0.0, 0.5, 0.9]), rng.choice([0.0, 0.0, 0.1, 0.2])
+    edges = list(tops) + [t for t in tops3 if t not in in3 or rng.random() < 0.5]
+    edges += [t for t in c3 if rng.random() < (p_in if t in in3 else p_out)]
+    edges += [t for t in c2 if rng.random() < (max(p2, p2_in) if t in in2 else p2)]
+    rng.shuffle(edges)
+    return list(dict.fromkeys(edges))
+
+
+def classes_34_on_5():
+    """one hypergraph per isomorphism class among ALL hypergraphs on 5 nodes whose hyperedges have 3 or 4 nodes (2^15 of them)"""
+    U = [c for z in (3, 4) for c in itertools.combinations(range(1, 6), z)]
+    pos = {e: j for j, e in enumerate(U)}
+    tables = []
+    for p in itertools.permutations(range(1, 6)):
+        tables.append([pos[tuple(sorted(p[x - 1] for x in e))] for e in U])
+    seen, reps = bytearray(1 << len(U)), []
+    for m in range(1 << len(U)):
+        if seen[m]:
+            continue
+        reps.append(m)
+        bits = [j for j in range(len(U)) if m >> j & 1]
+        for t in tables:
+            seen[sum(1 << t[j] for j in bits)] = 1
+    return [[U[j] for j in range(len(U)) if m >> j & 1] for m in reps]
+
+
+def nested_inputs(tier, rng):
+    out = []
+    fam = itertools.cycle(FAMS)
+    for i in range(44 if tier == "quick" else 700):
+        n = rng.choice([5, 5, 6])
+        edges = nested_family(rng, n)
+        tags = [rng.choice(["labels", "history", "large"])]
+        out.append(make_case("hg", 4, n, edges, rng, next(fam), tags, "nested"))
+        if i % 4 == 0:
+            out.append(make_case("hg", 3, n, edges, rng, next(fam), tags, "nested"))
+    if tier == "thorough":
+        # every hypergraph on 5 nodes with hyperedges of 3 and 4 nodes, up to isomorphism, under a random label permutation
+        # (and once more with a few 2-node hyperedges)
+        pairs = list(itertools.combinations(range(1, 6), 2))
+        for edges in classes_34_on_5():
+            out.append(make_case("hg", 4, 5, edges, rng, next(fam), ["labels"], "all-5-node-sizes-3-4"))
+            extra = [c for c in pairs if rng.random() < 0.15]
+            if extra:
+                out.append(make_case("hg", 4, 5, edges + extra, rng, next(fam), [], "all-5-node-sizes-3-4+pairs"))
+    return out
+
+
+# ---- directed: non-isomorphic patterns that simple invariants do not tell apart
+def dir_profile(P, k):
+    """per node the sorted (sources, targets, is-source) of its hyperedges, sorted over the nodes"""
+    return tuple(sorted(tuple(sorted((len(s), len(t), i in s) for s, t in P if i in s or i in t)) for i in range(1, k + 1)))
+
+
+def dir_pair_profile(P, k):
+    """per node pair the sorted (sources, targets, how many of the two are sources) of the hyperedges holding both"""
+    return tuple(sorted(tuple(sorted((len(s), len(t), (i in s) + (j in s)) for s, t in P
+                                     if (i in s or i in t) and (j in s or j in t)))
+                        for i, j in itertools.combinations(range(1, k + 1), 2)))
+
+
+def dir_coarse(P, k):
+    """shapes of the hyperedges and the (out, in) degrees of the nodes"""
+    return (tuple(sorted((len(s), len(t)) for s, t in P)),
+            tuple(sorted((sum(i in s for s, t in P), sum(i in t for s, t in P)) for i in range(1, k + 1))))
+
+
+def dir_twins(k, tier):
+    """families of patterns on 1..k, pairwise NON-isomorphic (they differ in dir_pair_profile, an isomorphism invariant; order 3:
+    in their orbit) but equal in dir_profile ('fine') or only in dir_coarse ('coarse'); every pattern covers 1..k and has a hyperedge on k or k-1
+    nodes, so the enumeration the anchors describe looks at it.  Deterministic (does not depend on the run's seed)."""
+    E = all_dir_edges(k)
+    rng = random.Random(1100 + k)
+
+    def usable(P):
+        return (any(len(s) + len(t) >= k - 1 for s, t in P)
+                and len(set().union(*[set(s) | set(t) for s, t in P])) == k)
+    if k == 3:
+        pats = [P for m in (3, 4, 5, 6) for P in itertools.combinations(E, m)]
+    else:
+        pats = list(itertools.combinations(E, 3))
+        for m, cnt in ((4, 5000), (5, 3000)) if tier == "quick" else ((4, 40000), (5, 20000), (6, 10000)):
+            pats += [tuple(sorted(rng.sample(E, m))) for _ in range(cnt)]
+    def orbit_min(P):
+        return min(tuple(sorted(place(P, p))) for p in itertools.permutations(range(1, k + 1)))
+    finer = orbit_min if k == 3 else lambda P: dir_pair_profile(P, k)
+    fine, coarse = {}, {}
+    for P in pats:
+        if usable(P):
+            fine.setdefault(dir_profile(P, k), []).append(P)
+    out = {"fine": [], "coarse": []}
+    for key, Ps in fine.items():
+        sub = {}
+        for P in Ps:
+            sub.setdefault(finer(P), P)
+        if len(sub) > 1:
+            out["fine"].append(list(sub.values()))
+        P = Ps[0]
+        coarse.setdefault(dir_coarse(P, k), {}).setdefault(finer(P), P)
+    out["coarse"] = [list(g.values()) for g in coarse.values() if len(g) > 1]
+    return out
+
+
+def place(P, nodes):
+    return [(tuple(sorted(nodes[x - 1] for x in s)), tuple(sorted(nodes[x - 1] for x in t))) for s, t in P]
+
+
+def dir_twin_inputs(tier, rng):
+    """ONE hypergraph holding two (order 3: up to three) of such look-alike patterns on disjoint node sets, built in both orders"""
+    out = []
+    fam = itertools.cycle(FAMS)
+    for k in (4, 3):
+        tw = dir_twins(k, tier)
+        picks = []
+        for level, quota in (("fine", 26 if k == 4 else 6), ("coarse", 10 if k == 4 else 4)):
+            fams = list(tw[level])
+            rng.shuffle(fams)
+            if tier == "quick":
+                fams = fams[:quota]
+            picks += [(level, f) for f in fams]
+        for level, f in picks:
+            f = list(f)
+            rng.shuffle(f)
+            groups = MAXN // k
+            combos = [f[:groups]] if tier == "quick" else [list(c) for c in itertools.combinations(f, 2)][:6]
+            for chosen in combos:
+                nodes = list(range(1, k * len(chosen) + 1))
+                rng.shuffle(nodes)
+                edges = []
+                for j, P in enumerate(chosen):
+                    block = place(P, nodes[k * j:k * j + k])
+                    rng.shuffle(block)
+                    edges += block
+                out.append(make_case("dir", k, k * len(chosen), edges, rng, next(fam),
+                                     ["reversed", rng.choice(["labels", "history"])], "look-alike-" + level))
     return out
 
 
@@ -397,6 +550,8 @@ def run(tier, seed):
     res = Result("C11", tier, seed, "model_checking")
     rng = random.Random(seed)
     specs = hg_inputs(tier, rng) + dir_inputs(tier, rng)
+    # later families draw from their own generators: the inputs above stay what they were for a given seed
+    specs += nested_inputs(tier, random.Random(seed * 7919 + 11)) + dir_twin_inputs(tier, random.Random(seed * 7919 + 12))
 
     # design exploration (two TLC runs side by side) runs beside the execution of the real code
     box = {}
